@@ -142,12 +142,12 @@ Definition ser (v : pv) : option bytes := option_map flat (w_top v).
 (* ---- the fixed buffer ---------------------------------------------------------------------- *)
 Record st := mkSt { loc : N; out : bytes (* reversed *) }.
 
-Fixpoint run (cap : N) (ops : list op) (s : st) : option st :=       (* None = copy past the end *)
+Fixpoint run_ops (cap : N) (ops : list op) (s : st) : option st :=       (* None = copy past the end *)
   match ops with
   | [] => Some s
-  | WB b :: r => run cap r (if cap <=? loc s then s else mkSt (loc s + 1) (b :: out s))
+  | WB b :: r => run_ops cap r (if cap <=? loc s then s else mkSt (loc s + 1) (b :: out s))
   | Raw l :: r => if loc s + lenN l <=? cap
-                  then run cap r (mkSt (loc s + lenN l) (rev_append l (out s)))
+                  then run_ops cap r (mkSt (loc s + lenN l) (rev_append l (out s)))
                   else None
   end.
 
@@ -157,7 +157,7 @@ Inductive outcome := OBytes (b : bytes) | OExc | OOob.
 Definition to_bytes (cap : N) (v : pv) : outcome :=
   match w_top v with
   | None => OExc
-  | Some ops => match run cap ops (mkSt 0 []) with
+  | Some ops => match run_ops cap ops (mkSt 0 []) with
                 | None => OOob
                 | Some s => OBytes (rev_append (out s) [])
                 end
